@@ -574,3 +574,357 @@ theorem dropped_ne_nil (set : List K) (m : Items K O) (h : dropped set m ≠ [])
 
 end
 end KC
+
+/-! ### per-key view of `doUpdate` and of `doSync` against a snapshot (used by the FSub proofs) -/
+namespace KC
+open AL
+section
+variable {K O : Type} [DecidableEq K]
+variable (key : O → K) (ver : O → Option Int) (acc : O → Bool)
+
+/-- what the filter lets through -/
+def view (x : Option (Entry O)) : Option (Entry O) :=
+  match x with
+  | none => none
+  | some e => if acc e.obj then some e else none
+
+/-- per-key effect of `doUpdate` on the event's own key -/
+def capply (cur : Option (Entry O)) (t : EvT) (v : Int) (o : O) : Option (Entry O) :=
+  match t with
+  | .delete => none
+  | _ =>
+    match cur with
+    | none => if acc o then some ⟨v, o⟩ else none
+    | some c => if c.ver < v then (if acc o then some ⟨v, o⟩ else none) else some c
+
+theorem doUpdate_own (m : Items K O) (t : EvT) (o : O) (v : Int) (hv : ver o = some v) :
+    lookup (key o) (doUpdate key ver acc m t o).1 = capply acc (lookup (key o) m) t v o := by
+  unfold doUpdate capply
+  simp only [hv]
+  cases t with
+  | delete => cases hc : lookup (key o) m <;> simp [hc]
+  | create | update =>
+    cases hc : lookup (key o) m with
+    | none => by_cases ha : acc o = true <;> simp [ha, hc]
+    | some cur =>
+      by_cases hlt : cur.ver < v
+      · by_cases ha : acc o = true <;> simp [hlt, ha]
+      · simp [hlt, hc]
+
+theorem doUpdate_frame (m : Items K O) (t : EvT) (o : O) (k : K) (hk : key o ≠ k) :
+    lookup k (doUpdate key ver acc m t o).1 = lookup k m := by
+  unfold doUpdate
+  cases hv : ver o with
+  | none => rfl
+  | some v =>
+    simp only
+    cases t <;> (cases lookup (key o) m <;> simp only [] <;> repeat' split) <;> simp [hk]
+
+theorem doUpdate_malformed (m : Items K O) (t : EvT) (o : O) (hv : ver o = none) :
+    doUpdate key ver acc m t o = (m, []) := by
+  unfold doUpdate; simp [hv]
+
+/-- per-key effect of a sync against a snapshot entry of the parent -/
+def csync (cur : Option (Entry O)) (snap : Option (Entry O)) : Option (Entry O) :=
+  match snap with
+  | none => none
+  | some s =>
+    match cur with
+    | none => view acc (some s)
+    | some c => if c.ver < s.ver then view acc (some s) else view acc (some c)
+
+/-- `plist` is a snapshot of content `a`: every key is listed exactly as `a` holds it -/
+def Snapshot (plist : List O) (a : AMap K O) : Prop :=
+  ∀ k, listedAll key ver k plist = (match a k with
+    | some e => [(e.ver, e.obj)]
+    | none => [])
+
+theorem doSync_snapshot (m : Items K O) (plist : List O) (a : AMap K O)
+    (hs : Snapshot key ver plist a) (k : K) :
+    lookup k (doSync key ver acc m plist).1 = csync acc (lookup k m) (a k) := by
+  have hl := hs k
+  rw [sync_refines_key key ver acc m plist k (by rw [hl]; cases a k <;> simp), hl]
+  cases hak : a k with
+  | none => simp [specKey, csync]
+  | some e =>
+    obtain ⟨ev, eo⟩ := e
+    simp only [specKey, csync, view]
+    cases hc : lookup k m with
+    | none => by_cases ha : acc eo = true <;> simp [newest, ha]
+    | some c =>
+      by_cases hlt : c.ver < ev <;> by_cases ha : acc eo = true <;> by_cases hb : acc c.obj = true <;>
+        simp [newest, hlt, ha, hb]
+
+theorem snapshot_nil (a : AMap K O) (h : ∀ k, a k = none) : Snapshot key ver ([] : List O) a := by
+  intro k; simp [listedAll, h k]
+
+end
+end KC
+
+/-! ### per-key account of the events of a sync (for C07) -/
+namespace KC
+open AL
+section
+variable {K O : Type} [DecidableEq K]
+variable (key : O → K) (ver : O → Option Int) (acc : O → Bool)
+
+/-- the events of a batch that concern key `k`, in order -/
+def evK (k : K) (evs : List (Ev O)) : List (Ev O) := evs.filter (fun e => decide (key e.obj = k))
+
+theorem evK_append (k : K) (a b : List (Ev O)) : evK key k (a ++ b) = evK key k a ++ evK key k b := by
+  simp [evK]
+
+/-- what the loop body emits for its own key -/
+def ownEvent (cur : Option (Entry O)) (v : Int) (o : O) : List (Ev O) :=
+  match cur with
+  | none => if acc o then [⟨.create, o⟩] else []
+  | some c => if acc o && decide (c.ver < v) then [⟨.update, o⟩] else []
+
+theorem step_evs_frame (st : SyncSt K O) (o : O) (k : K) (h : ∀ v, ver o = some v → key o ≠ k) :
+    evK key k (syncStep key ver acc st o).evs = evK key k st.evs := by
+  unfold syncStep
+  cases hv : ver o with
+  | none => rfl
+  | some v =>
+    have hk : key o ≠ k := h v hv
+    simp only
+    cases hc : lookup (key o) st.items with
+    | none => by_cases ha : acc o = true <;> simp [ha, evK, hk]
+    | some cur =>
+      by_cases h1 : (acc o && decide (cur.ver < v)) = true
+      · simp [h1, evK, hk]
+      · by_cases h2 : decide (cur.ver ≥ v) = true
+        · by_cases h3 : acc cur.obj = true <;> simp [h1, h2, h3]
+        · simp [h1, h2]
+
+theorem step_evs_own (st : SyncSt K O) (o : O) (v : Int) (hv : ver o = some v) :
+    evK key (key o) (syncStep key ver acc st o).evs
+      = evK key (key o) st.evs ++ ownEvent acc (lookup (key o) st.items) v o := by
+  unfold syncStep ownEvent
+  simp only [hv]
+  cases hc : lookup (key o) st.items with
+  | none => by_cases ha : acc o = true <;> simp [ha, evK]
+  | some cur =>
+    by_cases h1 : (acc o && decide (cur.ver < v)) = true
+    · simp [h1, evK]
+    · by_cases h2 : decide (cur.ver ≥ v) = true
+      · by_cases h3 : acc cur.obj = true <;> simp [h1, h2, h3]
+      · simp [h1, h2]
+
+theorem fold_evs_frame (l : List O) (st : SyncSt K O) (k : K) (h : listedAll key ver k l = []) :
+    evK key k (l.foldl (syncStep key ver acc) st).evs = evK key k st.evs := by
+  induction l generalizing st with
+  | nil => rfl
+  | cons o rest ih =>
+    simp only [List.foldl_cons]
+    have hne : ∀ v, ver o = some v → key o ≠ k := by
+      intro v hv hk
+      simp [listedAll, hv, hk] at h
+    have hrest : listedAll key ver k rest = [] := by
+      cases hv : ver o with
+      | none => simpa [listedAll, hv] using h
+      | some v =>
+        have := hne v hv
+        simpa [listedAll, hv, this] using h
+    rw [ih _ hrest, step_evs_frame key ver acc st o k hne]
+
+/-- the whole story of key `k` through the loop, for a key listed at most once: its final entry, whether
+it is in the working set, and the events about it -/
+theorem fold_key (l : List O) (st : SyncSt K O) (k : K) (hk : k ∉ st.set)
+    (hnd : (listedAll key ver k l).length ≤ 1) :
+    let st' := l.foldl (syncStep key ver acc) st
+    let r := specKey acc (lookup k st.items) (listedAll key ver k l)
+    (k ∈ st'.set ↔ r.isSome) ∧
+    (lookup k st'.items = if r.isSome then r else lookup k st.items) ∧
+    (evK key k st'.evs = evK key k st.evs ++ (match listedAll key ver k l with
+      | (v, o) :: _ => ownEvent acc (lookup k st.items) v o
+      | [] => [])) := by
+  induction l generalizing st with
+  | nil => simp [listedAll, specKey, hk]
+  | cons o rest ih =>
+    simp only [List.foldl_cons]
+    cases hv : ver o with
+    | none =>
+      have e : syncStep key ver acc st o = st := by simp [syncStep, hv]
+      have hnd' : (listedAll key ver k rest).length ≤ 1 := by simpa [listedAll, hv] using hnd
+      simpa [e, listedAll, hv] using ih st hk hnd'
+    | some v =>
+      by_cases hko : key o = k
+      · subst hko
+        have hrest : listedAll key ver (key o) rest = [] := by
+          simp only [listedAll, hv, if_true, List.length_cons] at hnd
+          exact List.eq_nil_of_length_eq_zero (by omega)
+        have own := step_own key ver acc st o v hv
+        have fr := fold_frame key ver acc rest (syncStep key ver acc st o) (key o) hrest
+        have fe := fold_evs_frame key ver acc rest (syncStep key ver acc st o) (key o) hrest
+        have oe := step_evs_own key ver acc st o v hv
+        simp only [listedAll, hv, if_true, hrest]
+        simp only at own
+        obtain ⟨hset, hlook⟩ := own
+        refine ⟨?_, ?_, ?_⟩
+        · rw [fr.2, hset]; simp [hk]
+        · rw [fr.1]
+          cases hr : specKey acc (lookup (key o) st.items) [(v, o)] with
+          | some e => simpa [hr] using hlook (by simp [hr])
+          | none =>
+            simp only [Option.isSome_none, Bool.false_eq_true, ↓reduceIte]
+            -- nothing accepted: the step left the items alone
+            unfold syncStep
+            simp only [hv]
+            unfold specKey at hr
+            cases hc : lookup (key o) st.items with
+            | none =>
+              simp only [hc, newest] at hr
+              by_cases ha : acc o = true
+              · simp [ha] at hr
+              · simp [ha, hc]
+            | some cur =>
+              simp only [hc, newest] at hr
+              by_cases hlt : cur.ver < v
+              · simp only [hlt, ↓reduceIte] at hr
+                by_cases ha : acc o = true
+                · simp [ha] at hr
+                · have : ¬ cur.ver ≥ v := by omega
+                  simp [ha, this, hc]
+              · simp only [hlt, ↓reduceIte] at hr
+                have hge : cur.ver ≥ v := by omega
+                by_cases h3 : acc cur.obj = true
+                · simp [h3] at hr
+                · simp [hlt, hge, h3, hc]
+        · rw [fe, oe]
+      · have hne : ∀ v', ver o = some v' → key o ≠ k := fun _ _ => hko
+        have fr := step_frame key ver acc st o k hne
+        have fe := step_evs_frame key ver acc st o k hne
+        have hk' : k ∉ (syncStep key ver acc st o).set := fun hin => hk (fr.2.mp hin)
+        have hnd' : (listedAll key ver k rest).length ≤ 1 := by simpa [listedAll, hv, hko] using hnd
+        have := ih (syncStep key ver acc st o) hk' hnd'
+        simpa [listedAll, hv, hko, fr.1, fe] using this
+
+/-- the delete-missing pass emits, for key `k`, one Delete of the cached object iff `k` is cached and not
+in the working set -/
+theorem dropped_key (set : List K) (m : Items K O) (hwf : WF key m) (k : K) :
+    evK key k (dropped set m) =
+      if k ∈ set then [] else (match lookup k m with
+        | some c => [⟨.delete, c.obj⟩]
+        | none => []) := by
+  induction m with
+  | nil => simp [dropped, evK]
+  | cons p rest ih =>
+    obtain ⟨k0, e0⟩ := p
+    have hnd := hwf.1
+    simp only [NodupKeys, keys, List.map_cons, List.nodup_cons] at hnd
+    have hk0 : k0 ∉ keys rest := by simpa [keys] using hnd.1
+    have hwf' : WF key rest := by
+      refine ⟨by simpa [NodupKeys, keys] using hnd.2, ?_⟩
+      intro k' e he
+      have hne : k0 ≠ k' := by
+        intro hh; subst hh
+        exact hk0 (mem_keys_of_lookup he)
+      exact hwf.2 k' e (by simp [hne, he])
+    have hkey0 : key e0.obj = k0 := hwf.2 k0 e0 (by simp)
+    have ih' := ih hwf'
+    by_cases hm : k0 ∈ set
+    · simp only [dropped, hm, ↓reduceIte, ih']
+      by_cases hkk : k0 = k
+      · subst hkk; simp [hm]
+      · simp [hkk]
+    · simp only [dropped, hm, ↓reduceIte]
+      by_cases hkk : k0 = k
+      · subst hkk
+        have hnone : lookup k0 rest = none := lookup_none_of_not_mem hk0
+        simp only [evK, List.filter_cons, hkey0, decide_true, ↓reduceIte, hm, lookup_cons]
+        have := ih'
+        simp only [evK, hm, ↓reduceIte, hnone] at this
+        rw [this]
+      · have hne : ¬ key e0.obj = k := by rw [hkey0]; exact hkk
+        simp only [evK, List.filter_cons, hne, decide_false, Bool.false_eq_true, ↓reduceIte, lookup_cons, hkk]
+        exact ih'
+
+end
+end KC
+
+namespace KC
+open AL
+section
+variable {K O : Type} [DecidableEq K]
+variable (key : O → K) (ver : O → Option Int) (acc : O → Bool)
+
+theorem doUpdate_WF (m : Items K O) (t : EvT) (o : O) (h : WF key m) : WF key (doUpdate key ver acc m t o).1 := by
+  unfold doUpdate
+  cases hv : ver o with
+  | none => simpa using h
+  | some v =>
+    simp only
+    cases t <;> cases hc : lookup (key o) m <;> simp only [] <;> (repeat' split) <;>
+      first | exact h | exact WF_insert key h o v | exact WF_erase key h _
+
+theorem doSync_WF (m : Items K O) (l : List O) (h : WF key m) : WF key (doSync key ver acc m l).1 :=
+  WF_keep key (fold_WF key ver acc l ⟨m, [], []⟩ h) _
+
+/-- the events of a sync that concern key `k` (listed at most once): at most one Create/Update from
+the loop, followed by at most one Delete from the delete-missing pass -/
+theorem doSync_events_key (m : Items K O) (l : List O) (hwf : WF key m) (k : K)
+    (hnd : (listedAll key ver k l).length ≤ 1) :
+    evK key k (doSync key ver acc m l).2 =
+      (match listedAll key ver k l with
+        | (v, o) :: _ => ownEvent acc (lookup k m) v o
+        | [] => []) ++
+      (if (specKey acc (lookup k m) (listedAll key ver k l)).isSome then [] else
+        (match lookup k m with
+          | some c => [⟨.delete, c.obj⟩]
+          | none => [])) := by
+  unfold doSync syncFold
+  simp only [evK_append]
+  have fk := fold_key key ver acc l ⟨m, [], []⟩ k (by simp) hnd
+  simp only at fk
+  obtain ⟨hset, hlook, hevs⟩ := fk
+  have hwf' := fold_WF key ver acc l ⟨m, [], []⟩ hwf
+  rw [hevs, dropped_key key _ _ hwf' k]
+  simp only [evK, List.filter_nil, List.nil_append]
+  congr 1
+  by_cases hr : (specKey acc (lookup k m) (listedAll key ver k l)).isSome = true
+  · simp [hset, hr]
+  · have hns : k ∉ (l.foldl (syncStep key ver acc) ⟨m, [], []⟩).set := fun h => hr (hset.mp h)
+    simp only [hns, ↓reduceIte, hr, Bool.false_eq_true]
+    rw [hlook]; simp [hr]
+
+end
+end KC
+
+namespace KC
+open AL
+section
+variable {K O : Type} [DecidableEq K]
+variable (key : O → K) (ver : O → Option Int) (acc : O → Bool)
+
+theorem doUpdate_replay (m : Items K O) (t : EvT) (o : O) :
+    replay key ver (doUpdate key ver acc m t o).2 (abs m) = some (abs (doUpdate key ver acc m t o).1) := by
+  unfold doUpdate
+  cases hv : ver o with
+  | none => rfl
+  | some v =>
+    simp only
+    have habs : abs m (key o) = lookup (key o) m := rfl
+    cases t with
+    | delete =>
+      cases hc : lookup (key o) m with
+      | none => rfl
+      | some cur => simp [replay, applyEv, habs, hc, abs_erase]
+    | create | update =>
+      cases hc : lookup (key o) m with
+      | none => by_cases ha : acc o = true <;> simp [ha, replay, applyEv, habs, hc, hv, abs_insert]
+      | some cur =>
+        by_cases hlt : cur.ver < v
+        · by_cases ha : acc o = true <;> simp [hlt, ha, replay, applyEv, habs, hc, hv, abs_insert, abs_erase]
+        · simp [hlt, replay]
+
+theorem doSync_replay (m : Items K O) (l : List O) (hwf : WF key m) :
+    replay key ver (doSync key ver acc m l).2 (abs m) = some (abs (doSync key ver acc m l).1) := by
+  unfold doSync syncFold
+  simp only [replay_append]
+  rw [fold_replay key ver acc m l ⟨m, [], []⟩ rfl]
+  simp only [Option.bind_some]
+  exact dropped_replay_abs key ver _ _ (fold_WF key ver acc l ⟨m, [], []⟩ hwf)
+
+end
+end KC
